@@ -204,3 +204,79 @@ Theorem C17_ro_no_panic : forall t n extra, wf_ty t = true -> view_depth t < 64 
   ~ In IPanic (ro_iter t n extra).
 Proof. exact ro_no_panic. Qed.
 Print Assumptions C17_ro_no_panic.
+
+(* ---- 5. on trees that represent a value ([Repr.repr], any zero table zh) the read-only
+        iterator yields exactly the components of the value, then the end ---- *)
+
+Theorem C17_repr_ro_bitvector : forall zh k n bs extra,
+  small_params (TBitvector k) = true ->
+  repr zh (TBitvector k) n (VBits bs) -> has_type (VBits bs) (TBitvector k) = true ->
+  ro_iter (TBitvector k) n extra = map (fun b => IVal (VBool b)) bs ++ repeat IEnd extra.
+Proof. exact repr_ro_bitvector. Qed.
+Print Assumptions C17_repr_ro_bitvector.
+
+Theorem C17_repr_ro_bitlist : forall zh k n bs extra,
+  small_params (TBitlist k) = true ->
+  repr zh (TBitlist k) n (VBits bs) -> has_type (VBits bs) (TBitlist k) = true ->
+  ro_iter (TBitlist k) n extra = map (fun b => IVal (VBool b)) bs ++ repeat IEnd extra.
+Proof. exact repr_ro_bitlist. Qed.
+Print Assumptions C17_repr_ro_bitlist.
+
+Theorem C17_repr_ro_packed_vector : forall zh w k n vs extra,
+  wf_ty (TVector (TUint w) k) = true -> small_params (TVector (TUint w) k) = true ->
+  repr zh (TVector (TUint w) k) n (VSeq vs) -> has_type (VSeq vs) (TVector (TUint w) k) = true ->
+  ro_iter (TVector (TUint w) k) n extra = map IVal vs ++ repeat IEnd extra.
+Proof. exact repr_ro_packed_vector. Qed.
+Print Assumptions C17_repr_ro_packed_vector.
+
+Theorem C17_repr_ro_packed_list : forall zh w k n vs extra,
+  wf_ty (TList (TUint w) k) = true -> small_params (TList (TUint w) k) = true ->
+  repr zh (TList (TUint w) k) n (VSeq vs) -> has_type (VSeq vs) (TList (TUint w) k) = true ->
+  ro_iter (TList (TUint w) k) n extra = map IVal vs ++ repeat IEnd extra.
+Proof. exact repr_ro_packed_list. Qed.
+Print Assumptions C17_repr_ro_packed_list.
+
+Theorem C17_repr_ro_complex_vector : forall zh e k n vs extra,
+  is_basic_elem e = false -> wf_ty (TVector e k) = true -> small_params (TVector e k) = true ->
+  repr zh (TVector e k) n (VSeq vs) -> has_type (VSeq vs) (TVector e k) = true ->
+  exists steps, ro_iter (TVector e k) n extra = steps ++ repeat IEnd extra /\
+    Forall2 (fun step x => exists m, step = INode e m /\ repr zh e m x) steps vs.
+Proof. exact repr_ro_complex_vector. Qed.
+Print Assumptions C17_repr_ro_complex_vector.
+
+Theorem C17_repr_ro_complex_list : forall zh e k n vs extra,
+  is_basic_elem e = false -> wf_ty (TList e k) = true -> small_params (TList e k) = true ->
+  repr zh (TList e k) n (VSeq vs) -> has_type (VSeq vs) (TList e k) = true ->
+  exists steps, ro_iter (TList e k) n extra = steps ++ repeat IEnd extra /\
+    Forall2 (fun step x => exists m, step = INode e m /\ repr zh e m x) steps vs.
+Proof. exact repr_ro_complex_list. Qed.
+Print Assumptions C17_repr_ro_complex_list.
+
+(* containers: [small_params] does not bound the number of fields, hence [view_depth < 64]
+   (true for fewer than 2^63 fields) *)
+Theorem C17_repr_ro_container : forall zh fs n vs extra,
+  wf_ty (TContainer fs) = true -> view_depth (TContainer fs) < 64 ->
+  repr zh (TContainer fs) n (VCont vs) -> has_type (VCont vs) (TContainer fs) = true ->
+  exists steps, ro_iter (TContainer fs) n extra = steps ++ repeat IEnd extra /\
+    Forall2 (fun step fx => exists m, step = INode (fst fx) m /\ repr zh (fst fx) m (snd fx))
+            steps (combine fs vs).
+Proof. exact repr_ro_container. Qed.
+Print Assumptions C17_repr_ro_container.
+
+(* and then the getters and the index iterator yield the same components *)
+Theorem C17_repr_get_all_eq : forall t n extra steps len,
+  wf_ty t = true -> view_depth t < 64 ->
+  ro_iter t n extra = steps ++ repeat IEnd extra -> ~ In IErr steps ->
+  Forall (fun s => is_comp s = true) steps ->
+  series_len t n = OK len ->
+  get_all t n = steps /\ ix_iter t n extra = steps ++ repeat IEnd extra /\
+  length steps = N.to_nat len.
+Proof. exact repr_get_all_eq. Qed.
+Print Assumptions C17_repr_get_all_eq.
+
+(* [view_depth t < 64] follows from small parameters *)
+Theorem C17_small_view_depth : forall t, small_params t = true ->
+  (forall fs, t = TContainer fs -> N.of_nat (length fs) <= 2 ^ 62) ->
+  view_depth t < 64.
+Proof. exact small_view_depth. Qed.
+Print Assumptions C17_small_view_depth.
